@@ -160,7 +160,22 @@ func runC05(c *Ctx) {
 		}}
 	// decoded bitmaps support all further operations: depth-1 sweep per decoder
 	swc := corpus
-	sw := &explore.Product{Name: "decoded bitmap x depth-1 operation sweep", Dims: []int{len(swc), len(decoderNames)}, Deadline: c.Budget(70, 1300), Execs: &evals,
+	// decodeKept is decode32 with the decoder's input kept by the caller: the zero-copy entry points (FromBuffer,
+	// FromUnsafeBytes) hand the bitmap a view of kept, which no later operation on the bitmap may write
+	decodeKept := func(d int, rb *roaring.Bitmap, data []byte) (kept []byte, err error) {
+		switch d {
+		case 1:
+			kept = shapes.Aligned(data)
+			_, err = rb.FromBuffer(kept)
+		case 2:
+			kept = shapes.Aligned(data)
+			_, err = rb.FromUnsafeBytes(kept)
+		default:
+			_, _, err = decode32(d, rb, data)
+		}
+		return kept, err
+	}
+	sw := &explore.Product{Name: "decoded bitmap x receiver history x depth-1 operation sweep", Dims: []int{len(swc), len(decoderNames), 2}, Deadline: c.Budget(70, 1300), Execs: &evals,
 		Run: func(idx []int) (string, *ev.Fail) {
 			src := swc[idx[0]].Build()
 			defer runtime.KeepAlive(src)
@@ -169,19 +184,28 @@ func runC05(c *Ctx) {
 				return "", fail("ToBytes", "error", "%v", err)
 			}
 			ops := sweepOps(src.M)
+			api := decoderNames[idx[1]]
+			if idx[2] == 1 {
+				api += " into a used receiver"
+			}
 			for _, op := range ops {
-				rb := roaring.New()
-				if _, _, err := decode32(idx[1], rb, data); err != nil {
-					return "", fail(decoderNames[idx[1]], "error", "%v", err)
+				rb, keep := makeReceiver(idx[2]) // 0: fresh, 1: previously used, more plain chunks than any decoded state below 8 chunks
+				kept, err := decodeKept(idx[1], rb, data)
+				if err != nil {
+					return "", fail(api, "error", "%v", err)
 				}
 				w := &W32{B: rb, M: src.M.Clone()}
 				if _, f := op.F(w); f != nil {
-					f.What = "after " + decoderNames[idx[1]] + ": " + f.What
+					f.What = "after " + api + ": " + f.What
 					return "", f
 				}
-				if f := checkState32(decoderNames[idx[1]]+"+"+op.Name, w.B, w.M, false); f != nil {
+				if f := checkState32(api+"+"+op.Name, w.B, w.M, false); f != nil {
 					return "", f
 				}
+				if kept != nil && !bytes.Equal(kept, data) {
+					return "", fail(api, "source-bytes-written", "%s after %s wrote into the bytes the bitmap was decoded from", op.Name, api)
+				}
+				runtime.KeepAlive(keep)
 				atomic.AddInt64(&evals, 1)
 			}
 			// and binary operations with a plain partner, as receiver and as argument
